@@ -52,7 +52,10 @@ type hop struct {
 //	                     every level of the path), values = 4 (8) times the largest leaf,
 //	                     D = longest path (internal nodes) of the trie over all keys of the history
 //	fitn, fitv           only the node (value) capacity of fit, the other one unlimited
-//	tiny                 below the working set of a single operation: (1,1), (2,16), (1,0), (0,1)
+//	tiny                 node capacity N with 0 < N < 2D+4, i.e. below the working set of a single
+//	                     operation: (1,1), (2,16), (1,0). This rule (see fitCapacity) is the only
+//	                     way a failure gets a c02/cache-below-working-set/... signature.
+//	n0v1                 (0,1): nodes unlimited, value capacity below one leaf; class fitv
 type capacity struct {
 	name        string
 	class       string
@@ -70,13 +73,17 @@ var capacities = []capacity{
 	{name: "n1v1", class: "tiny", set: true, nodes: 1, vals: 1},
 	{name: "n2v16", class: "tiny", set: true, nodes: 2, vals: 16},
 	{name: "n1v0", class: "tiny", set: true, nodes: 1, vals: 0},
-	{name: "n0v1", class: "tiny", set: true, nodes: 0, vals: 1},
+	{name: "n0v1", class: "fitv", set: true, nodes: 0, vals: 1},
 }
 
-// fitCapacity computes the numbers of the fit classes for a history.
-func fitCapacity(c capacity, hist []hop) capacity {
-	if !strings.HasPrefix(c.class, "fit") {
-		return c
+// fitCapacity computes the numbers of the fit classes for a history and decides the class "tiny":
+// a configured node capacity N is below the working set of one operation iff 0 < N < 2D+4, where D
+// is the number of internal nodes on the longest path of the canonical trie over all keys the
+// history uses (an operation visits at most D path nodes and Remove dereferences both children of
+// each of them). Returns the capacity and 2D+4.
+func fitCapacity(c capacity, hist []hop) (capacity, uint64) {
+	if !c.set {
+		return c, 0
 	}
 	universe := map[string]struct{}{}
 	maxLeaf := uint64(0)
@@ -91,17 +98,23 @@ func fitCapacity(c capacity, hist []hop) capacity {
 		}
 	}
 	d := uint64(lab.UniverseDepth(universe))
+	ws := 2*d + 4
 	switch c.name {
 	case "fit":
-		c.nodes, c.vals = 2*d+4, 4*maxLeaf
+		c.nodes, c.vals = ws, 4*maxLeaf
 	case "fit2":
-		c.nodes, c.vals = 4*d+8, 8*maxLeaf
+		c.nodes, c.vals = 2*ws, 8*maxLeaf
 	case "fit-nodes-only":
-		c.nodes, c.vals = 2*d+4, 0
+		c.nodes, c.vals = ws, 0
 	case "fit-values-only":
 		c.nodes, c.vals = 0, 4*maxLeaf
 	}
-	return c
+	if c.nodes != 0 && c.nodes < ws {
+		c.class = "tiny"
+	} else if c.class == "tiny" {
+		c.class = "fit" // not below the working set: never filed under the tiny family
+	}
+	return c, ws
 }
 
 // routeSpec describes one route; everything needed to replay it.
@@ -114,6 +127,8 @@ type routeSpec struct {
 	CapClass   string `json:"capacity_class"`
 	CapNodes   uint64 `json:"capacity_nodes"`
 	CapValues  uint64 `json:"capacity_value_bytes"`
+	// WorkingSetNodes is 2D+4 for this history; class "tiny" iff 0 < CapNodes < WorkingSetNodes.
+	WorkingSetNodes uint64 `json:"working_set_nodes"`
 	Reopen     bool   `json:"reopen_every_commit"`
 	NoWriteLog bool   `json:"without_write_log"`
 	Finalize   bool   `json:"finalize_every_version"`
@@ -162,18 +177,21 @@ var (
 func main() {
 	run = evid.Start("C02", "exploration")
 	run.Rule = "case i: content set S (0..48 keys, alphabet {00,01,7f,80,ff,a,b}, lengths 0..6, 60% of keys derived from existing keys as extension/prefix/sibling/bit flip; values 0..3 bytes, sometimes 40..800) from PRNG(seed,i); " +
-		">= 9 routes per set (sorted/reverse/shuffled inserts, churn histories with extra keys removed later, overwrites, remove+reinsert, no-op rewrites and removes; commit once/every op/every k/random; nop, badger, pathbadger in-memory; capacities default, unlimited, fit classes (nodes=D+2 / 2D+4, values = 4x / 8x largest leaf), tiny (1,1),(2,16),(1,0),(0,1); reopen with NewWithRoot at every commit; write-log replay; sampled checkpoint create->restore). " +
+		">= 9 routes per set (sorted/reverse/shuffled inserts, churn histories with extra keys removed later, overwrites, remove+reinsert, no-op rewrites and removes; commit once/every op/every k/random; nop, badger, pathbadger in-memory; capacities default, unlimited, fit classes (nodes=2D+4 / 4D+8, values = 4x / 8x largest leaf), tiny = node capacity below 2D+4: (1,1),(2,16),(1,0); (0,1); reopen with NewWithRoot at every commit; write-log replay; sampled checkpoint create->restore). " +
 		"non-trivial = S has a prefix-key pair AND some route history contained a removal that collapsed an internal node (classified by the reference trie builder)."
 	run.Assume("reference hasher (engine/mkvslab/refhash.go) is the canonical compressed Patricia trie built top-down from node.go's hash definitions; SHA-512/256 from Go's crypto/sha512")
 	run.Assume("nop node database is used only with the default/unlimited cache (it cannot re-fetch evicted nodes) and without reopen")
 	run.Assume("values are non-nil, keys are non-nil byte slices (the empty key is []byte{}); badger/pathbadger run in MemoryOnly mode, commits are a linear chain version+1")
+
+	// The heap is dominated by short-lived 64 MiB badger arenas; collect eagerly.
+	debug.SetGCPercent(20)
 
 	if run.ReplayFile != "" {
 		replay(run.ReplayFile)
 		return
 	}
 
-	n := run.Pick(400, 20000)
+	n := run.Pick(400, 12000)
 	deadline := time.Now().Add(time.Duration(run.Pick(20, 90)) * time.Minute)
 	var skipped atomic.Int64
 	evid.Parallel(n, 0, func(i int) {
@@ -241,7 +259,10 @@ func runCase(i int) {
 	collapses, merges := 0, 0
 	for ri := range routes {
 		spec := &routes[ri]
-		res, f := runHistory(spec, spec.History, true, true)
+		// Only one database is kept open per case (for the checkpoint route): every in-memory
+		// badger instance holds a 64 MiB memtable arena.
+		keep := i%3 == 0 && spec.Name == "db-a"
+		res, f := runHistory(spec, spec.History, true, keep)
 		if f == nil && !res.model.Equal(set) {
 			// Harness self-check: the history must end at the content set.
 			run.Inconclusive("harness bug: history of route %s (case %d) does not end at the content set", spec.Name, i)
@@ -371,7 +392,7 @@ func planRoutes(rng *rand.Rand, set *lab.Model) []routeSpec {
 		case x < 8:
 			return capacities[2+rng.IntN(4)] // fit classes
 		default:
-			return capacities[6+rng.IntN(4)] // tiny
+			return capacities[6+rng.IntN(4)] // (1,1) (2,16) (1,0) (0,1)
 		}
 	}
 	batchings := []string{"once", "every", "k2", "k3", "k5", "k7", "random"}
@@ -413,7 +434,7 @@ func planRoutes(rng *rand.Rand, set *lab.Model) []routeSpec {
 			r.Reopen = true
 		}
 		r.History = genHistory(rng, set, r.Style, r.Batching)
-		r.cap = fitCapacity(r.cap, r.History)
+		r.cap, r.WorkingSetNodes = fitCapacity(r.cap, r.History)
 		r.CapClass, r.CapNodes, r.CapValues = r.cap.class, r.cap.nodes, r.cap.vals
 	}
 	return routes
